@@ -293,7 +293,7 @@ class C20(InputProp):
     level = "fault_enumeration"
     rule = ("for each producer history (status x3 dumps, make_zip, create_zip, download_to_file, render main; each with and without a "
             "complete previous version) the file-system operations are recorded, then the process is killed before EVERY operation "
-            "(crash), after half of every write (torn), every operation fails once with ENOSPC and EIO (error), and for the small "
+            "(crash), after half of every write (torn), every operation fails once with ENOSPC and EIO (error), the disk fills up inside every write (short count, then ENOSPC for good), and for the small "
             "producers every (error at k1, crash at k2>k1) pair and every (crash of a first run at k1, crash of a second run in the same directory at k2 / completion) pair; non-trivial/distinct = distinct (producer, state of the published path) outcomes")
     assumptions = ("process kill, not power loss: completed system calls persist, user-space buffers are lost",
                    "the operation sequence of a producer is deterministic (a fault index beyond the end simply lets the producer finish)",
@@ -327,6 +327,11 @@ class C20(InputProp):
                     for k in range(1, n + 1):
                         cases.append((name, previous, "error", k, errno.ENOSPC, 0))
                         cases.append((name, previous, "error", k, errno.EIO, 0))
+                # the disk fills up INSIDE a write: half of it is stored, the short count is returned without an error, and every
+                # later write fails with ENOSPC (what the kernel does; a writer that ignores the count publishes a truncated file)
+                for k in range(1, n + 1):
+                    if ops[k - 1][0] == "write" and ops[k - 1][2] > 1:
+                        cases.append((name, previous, "disk-full", k, errno.ENOSPC, 0))
                 if name != "render":
                     for k1 in range(1, n + 1):
                         for k2 in range(k1 + 1, n + 3):
@@ -355,6 +360,8 @@ class C20(InputProp):
                 rc = run_child(prod, sbx, k2, 0, -1, 0, -1)
             elif mode == "error":
                 rc = run_child(prod, sbx, -1, 0, k, eno, -1)
+            elif mode == "disk-full":
+                rc = run_child(prod, sbx, -1, 2, k, eno, -1)
             else:
                 rc = run_child(prod, sbx, k2, 0, k, eno, -1)
             problem = prod.judge(sbx, previous)
